@@ -377,6 +377,44 @@ def round3_rules(res, fx):
     if n < 1:
         raise AnalysisBroken('EINTR: no error return after a failed select()/poll() found in SocketMultiplexer::FDState::WaitForEvents')
 
+    # NFDS-COVERS: select() looks only at descriptors below its first argument, so that argument has to cover every set that is handed over
+    res.rule('NFDS-COVERS', 'SocketMultiplexer::FDState::WaitForEvents: the local that bounds select()\'s descriptor range is, wherever it is assigned inside a loop, the maximum of its own '
+                            'previous value and the new candidate (a running maximum over all descriptor sets, not the last set\'s value)', floor=1)
+    n = 0
+    for g in sorted((g for g in fx.funcs.values() if g.full and g.q.endswith('FDState::WaitForEvents')), key=lambda g: (g.file, g.line)):
+        sel = [c for c in g.walk() if c.is_call() and (c.get('q') or '') == 'select' and c.args()]
+        if not sel:
+            continue
+        in_loop = set()
+        for (h, body) in C.natural_loops(g):
+            in_loop |= set(body)
+        vdecl = dict((v['d'], v) for v in g.walk() if v['k'] == 'VarDecl' and v.get('d') is not None)
+        for c in sel:
+            bound = set(x['d'] for x in A.walk_through_locals(g, c.args()[0]) if x['k'] == 'DeclRefExpr' and x.get('d') in vdecl and A.is_integral_type(vdecl[x['d']].type()))
+            for a in g.walk():
+                if not (a['k'] in ('BinaryOperator', 'CompoundAssignOperator') and a.get('op') == '=' and A.strip_casts(a['ch'][0]).get('d') in bound):
+                    continue
+                if P.pos_of(g, a)[0] not in in_loop:
+                    continue
+                v = A.strip_casts(a['ch'][0])['d']
+                n += 1
+                mm = A.min_max(a['ch'][1], g)
+                keeps = mm is not None and mm[0] == 'max' and any(x.get('d') == v for x in mm[1])
+                if not keeps:
+                    # the guarded form: if (candidate > bound) bound = candidate
+                    rk = A.render_key(a['ch'][1])
+                    for (at, t) in G.atoms_at(g, a):
+                        for (l_, op_, r_) in A.rel_forms(at, t):
+                            if (op_ in ('>', '>=') and A.render_key(l_) == rk and A.strip_casts(r_).get('d') == v) or (op_ in ('<', '<=') and A.render_key(r_) == rk and A.strip_casts(l_).get('d') == v):
+                                keeps = True
+                res.ob('NFDS-COVERS', g.where(a), 'the select() bound `%s` is a running maximum' % (vdecl[v].get('n') or '?'), keeps, function=g.q, key='NFDS-COVERS|%s|%s' % (g.q, vdecl[v].get('n')),
+                       how='max(previous, candidate)' if keeps else 'plain overwrite inside a loop',
+                       message='SocketMultiplexer::FDState::WaitForEvents overwrites the descriptor bound it passes to select() on every pass of the loop over the descriptor sets instead of '
+                               'maximising it: select() ignores every descriptor at or above its first argument, so a wake-up socket registered for reading whose number is higher than the '
+                               'highest descriptor of the last non-empty set is never watched and the wake-up is lost')
+    if n < 1:
+        raise AnalysisBroken('NFDS-COVERS: no in-loop assignment to the bound of select() found in SocketMultiplexer::FDState::WaitForEvents')
+
 
 def early_return_edges(g):
     """edges of `if (x == 0) return` style early exits on a by-value parameter (no-op requests)"""
